@@ -74,12 +74,12 @@ CHECKS.update({
 
 CHECKS.update({
     "C01": dict(
-        technique="static analysis: sibling agreement of frame pop sites, match-arm call-graph reachability for coercions, emit/handle pairing between compiler and VM, type walk of the property container, opcode table coverage, operand-role signatures of sibling arms, in-place copy direction test, placeholder-container coverage at context pop",
-        text="Decides seven structural necessary conditions of conformance (not the value of any operator): trampoline frame pop "
+        technique="static analysis: sibling agreement of frame pop sites, match-arm call-graph reachability for coercions, emit/handle pairing between compiler and VM, type walk of the property container, opcode table coverage, operand-role signatures of sibling arms, in-place copy direction test, placeholder-container coverage at context pop, receiver-protocol agreement of direction siblings",
+        text="Decides nine structural necessary conditions of conformance (not the value of any operator): trampoline frame pop "
              "sites restore the same VM fields; operator arms convert register operands through the hook-aware coercion; "
              "break/continue/return pop block scopes on exactly one side; the own-property container is insertion ordered; "
              "every opcode is emitted, handled and (for jumps) patched, and no pending jump placeholder is dropped with its context; plain/computed sibling arms agree on operand roles; a hand-written "
-             "copy inside one vector is dominated by a direction test. Today's deviations are genuine and listed with failing "
+             "copy inside one vector is dominated by a direction test; natives that differ only in direction read the receiver alike. Today's deviations are genuine and listed with failing "
              "programs; the frame-restore defect was repaired (fix: commit).",
         ref="4/C01"),
     "C08": dict(
